@@ -116,7 +116,7 @@ extern "C" {
     BufReg r;
     r.p = b->p;
     r.n = n;
-    bufreg_.push_back(r);
+    { awsim::AllocPause pause; bufreg_.push_back(r); }
     return put(K_BUF, b);
     AWS_CATCH(0)
   }
